@@ -150,7 +150,7 @@ def refusal(item):
 def items(tier):
     out = []
     sizes = (1, 2) if tier == 'quick' else (1, 2, 3)
-    for equity in EQUITIES:
+    for equity in (EQUITIES if tier == 'quick' else EQUITIES + ['2500000000.5']):
         for lev in LEVERAGES:
             for rate in RATES:
                 for n in sizes:
